@@ -581,7 +581,7 @@ func TestDirSweep(t *testing.T) {
 	nOps := len(newEnv(tr).singleOps(nil, "x"))
 	for _, rc := range receiverClasses {
 		for _, nc := range nameClasses {
-			for i := 0; i < nOps; i++ {
+			for i := 0; i < nOps && hangCount.Load() < maxHangs; i++ {
 				e := newEnv(tr)
 				w := e.makeDir(rc, "w").(virtual.PrepopulatedDirectory)
 				o := e.singleOps(w, nc.name)[i]
@@ -610,6 +610,9 @@ func TestDirSweep(t *testing.T) {
 				}
 				for _, nc := range newNames {
 					if nc.class == "parentname" && sc != "parent" {
+						continue
+					}
+					if hangCount.Load() >= maxHangs {
 						continue
 					}
 					e := newEnv(tr)
@@ -696,7 +699,7 @@ func TestDirRandom(t *testing.T) {
 	tr := common.NewTrace("trace.ndjson")
 	defer tr.Close()
 	calls := 0
-	for i := 0; i < traces; i++ {
+	for i := 0; i < traces && hangCount.Load() < maxHangs; i++ {
 		rng := common.Rand(int64(5000 + i))
 		e := newEnv(tr)
 		tr.Emit(common.Ev{"ev": "reset", "trace": i, "mode": "random"})
